@@ -1,0 +1,31 @@
+//go:build verif
+
+package memory
+
+// Contracts for the gvc verifier (/verif). Comment-only; never compiled into
+// a normal build.
+
+// IndexStorage (C29: a refused operation changes nothing). Worktree
+// operations update the index they got from Index() in place and store it only
+// when they succeed; a refused one (commit -a with nothing to commit, a failed
+// add) must leave the stored index as it was. So the index handed out is never
+// the stored object and shares no Entry with it, and what SetIndex stores is
+// a copy the caller cannot reach.
+//gvc:func (*IndexStorage).Index
+//gvc:  props C29
+//gvc:  theory int
+//gvc:  opt coarse
+//gvc:  opt frame args
+//gvc:  results i err
+//gvc:  requires nn: c != nil
+//gvc:  ensures private: err == nil ==> i != nil && i != c.index && forall(a, 0, len(i.Entries), forall(b, 0, len(c.index.Entries), i.Entries[a] == nil || i.Entries[a] != c.index.Entries[b]))
+//gvc:end
+
+//gvc:func (*IndexStorage).SetIndex
+//gvc:  props C29
+//gvc:  theory int
+//gvc:  opt coarse
+//gvc:  opt frame args
+//gvc:  requires nn: c != nil && idx != nil
+//gvc:  ensures private: result == nil ==> c.index != nil && c.index != idx && forall(a, 0, len(idx.Entries), forall(b, 0, len(c.index.Entries), idx.Entries[a] == nil || idx.Entries[a] != c.index.Entries[b]))
+//gvc:end
